@@ -4,5 +4,6 @@ CONSTANTS
   MaxR = 5
   GenDraws = 2
   MetricDraws = 2
+  LevMaxCols = 3
   LevDraws = 2
 INVARIANT SpecOK
